@@ -1772,3 +1772,40 @@ Proof.
   repeat split; auto. intros i p H L. destruct (Tm i p H) as [->| ->]; [|reflexivity].
   pose proof (proj1 (b_class s B i CDone H) L). discriminate.
 Qed.
+
+(* ---------- executions of run_sched are reachable (used for concrete witnesses) ---------- *)
+Lemma enabled_list_In s n : forall from i, In i (enabled_list s n from) -> enabled s i = true.
+Proof.
+  induction n as [|n IH]; intros from i H; cbn [enabled_list] in H; [contradiction|].
+  apply in_app_or in H. destruct H as [H|H].
+  - destruct (enabled s from) eqn:E; [|contradiction]. destruct H as [<-|[]]. exact E.
+  - eapply IH, H.
+Qed.
+
+Lemma run_sched_reachable ops fuel : forall s sched tr, reachable ops s ->
+  reachable ops (fst (run_sched fuel s sched tr)).
+Proof.
+  induction fuel as [|f IH]; intros s sched tr R; cbn [run_sched]; [exact R|].
+  destruct (all_enabled s) as [|e0 en] eqn:E; [exact R|].
+  set (k := match sched with [] => 0%Z | x :: _ => Z.abs x end).
+  set (i := nth (Z.to_nat (k mod zlen (e0 :: en))) (e0 :: en) 0).
+  assert (EN : enabled s i = true).
+  { apply (enabled_list_In s (length (thrs s)) 0). fold (all_enabled s). rewrite E. apply nth_In.
+    unfold zlen. assert (0 < Z.of_nat (length (e0 :: en)))%Z by (cbn [length]; lia).
+    pose proof (Z.mod_pos_bound k (Z.of_nat (length (e0 :: en))) H). lia. }
+  pose proof (r_step ops s i R EN) as R1. unfold step in R1.
+  destruct (tstep s i) as [[s1 p] e]. cbn [fst] in R1.
+  destruct (uad s1); [exact R1|]. apply IH. exact R1.
+Qed.
+
+Definition terminalb (s : st) : bool := forallb (fun p => negb (unfinished p)) (thrs s).
+Lemma terminalb_sound s : terminalb s = true -> terminal s.
+Proof.
+  unfold terminalb, terminal, all_done. intros H i p Hp. rewrite forallb_forall in H.
+  specialize (H p (nth_error_In _ _ Hp)). destruct p; cbn in H; try discriminate; auto.
+Qed.
+
+Definition final_state (ops : list (list Z)) : st :=
+  fst (run_sched (run_fuel ops) (init ops) (flat_map decode_sched ops) []).
+Lemma final_reachable ops : reachable ops (final_state ops).
+Proof. apply run_sched_reachable, r_init. Qed.
